@@ -10,6 +10,8 @@ class C11(Spec):
         "C11.state_rollback_exact",
         "C11.group_all_or_fee",
         "C11.local_rollback_exact",
+        "C11.rollback_exact",
+        "C11.group_local_rollback_exact",
     )
     partial = ()
     refuted = ()
